@@ -935,6 +935,7 @@ scpi_bool_t SCPI_ParamToUInt64(scpi_t * context, scpi_parameter_t * parameter, u
 static const char * numberWithoutWs(const scpi_parameter_t * parameter, char * buf, size_t buflen) {
     int i;
     size_t j = 0;
+    scpi_bool_t exponent = FALSE;
 
     for (i = 0; i < parameter->len; i++) {
         if (parameter->ptr[i] == ' ' || parameter->ptr[i] == '\t') {
@@ -950,7 +951,20 @@ static const char * numberWithoutWs(const scpi_parameter_t * parameter, char * b
         if (c == ' ' || c == '\t') {
             continue;
         }
-        if (!isdigit((unsigned char) c) && c != '+' && c != '-' && c != '.' && c != 'e' && c != 'E') {
+        if (c == 'e' || c == 'E') {
+            /* exponent only once and only if digits follow, otherwise a suffix starts here (EV) */
+            int k = i + 1;
+            while (k < parameter->len && (parameter->ptr[k] == ' ' || parameter->ptr[k] == '\t')) {
+                k++;
+            }
+            if (k < parameter->len && (parameter->ptr[k] == '+' || parameter->ptr[k] == '-')) {
+                k++;
+            }
+            if (exponent || k >= parameter->len || !isdigit((unsigned char) parameter->ptr[k])) {
+                break;
+            }
+            exponent = TRUE;
+        } else if (!isdigit((unsigned char) c) && c != '+' && c != '-' && c != '.') {
             break; /* suffix: not part of the number */
         }
         if (j + 1 >= buflen) {
